@@ -57,3 +57,26 @@ claim("C11", "Lean 4 theorem by induction over the chunk list (all arrival sched
       "the receiver ends with exactly the original frames in order, an empty buffer and no fault (reassembly_all_chunkings); instantiated for TCP requests/responses and RTU responses; RTU request streams as ..._partial "
       "without 0x0F/0x10 frames (open finding D4, witness) (Props/C11.lean).",
       "The receive loop (append piece, scan, remove start+size, repeat) lives in the caller; it is modelled in Model/Receiver.lean and the harness runs the same loop around the crate's decode.")
+
+claim("C06", "Lean 4 theorems (register algebra on BitVec 16, byte-wise simulation lemma, induction over the message) + differential correspondence (exhaustive for strings of length 0..2)",
+      "Proved for the model, for EVERY byte string: the register computed by crc16 equals the bit-serial CRC-16/MODBUS LFSR of Spec/Crc.lean (reflected poly 0xA001, init 0xFFFF, no final xor), also in Rocksoft-parameter form "
+      "(poly 0x8005, refin, refout); big-endian serialisation of the returned value puts the low-order CRC byte first (crc_wire_low_first); appending the serialised checksum gives checksum zero (crc_residue); "
+      "the catalogued check value 0x4B37 for \"123456789\" anchors the parameters (Props/C06.lean).",
+      "Correspondence: every string of length 0, 1 and 2 (65 793), random strings up to 600 bytes, constant strings of 255..1000 bytes; thorough adds 393 216 three-byte strings.")
+
+claim("C08", "Lean 4 theorems (soundness by guard analysis; error detection by linearity of the CRC register, the back-step argument for bursts, and a kernel-computed orbit for bit pairs) + differential correspondence + fault-injection search",
+      "Proved for the model: (soundness) whatever extract_frame, the scanners or the RTU ADU decoders return lies inside the input at the reported location, size = PDU length + 3, slave id and PDU are the bytes there, "
+      "and the two bytes after the PDU equal crc16 of slave id and PDU (Props/C08.lean); (error detection, every frame length) a frame accepted at full length and altered by any single-bit error, any burst of <= 16 bits, "
+      "or any double-bit error (frames <= 256 bytes; also proved up to 4095 bytes) is rejected with a CRC error at its original position (Props/C08Crc.lean: crc_detects and its parts).",
+      "The oracle's fault injection (all single-bit flips, sampled bursts and bit pairs on generated frames) is the search for a failing input, not the verdict.")
+
+claim("C09", "Lean 4 theorems (guard analysis of extract_frame and of the scan loop) + differential correspondence around every header field",
+      "Proved for the model: whatever tcp extract_frame, the scanners or the TCP ADU decoders return lies inside the input at the reported location (size = PDU length + 7), the protocol identifier there is 0, "
+      "the MBAP length field equals PDU length + 1, and transaction id, unit id and PDU are exactly the bytes at that location; a non-zero protocol id or a different length field means no frame is reported there (Props/C09.lean).",
+      "Correspondence: valid frames with every protocol id in {0,1,0x100,0x00FF,random} and length field n-2..n+256, embedded in noise, both directions.")
+
+claim("C14", "Lean 4 theorems (complete characterisation of the scan loop for an arbitrary attempt, instantiated for the four scanners) + differential correspondence over noise lengths 0..300",
+      "Proved for the model: scan = the first non-rejected offset among 0..min(len-2,255) (scan_spec / scan_eq_scanRef); hence (1) up to 255 bytes of noise every offset of which is rejected, then a frame, yields exactly that frame "
+      "with start = noise length, with a bytes-only sufficient condition per transport (…_resync); (2) no frame is ever reported after an offset that is not rejected (…_no_later, …_not_after); "
+      "(3) 256 rejected offsets in a buffer of >= 257 bytes give an error, not 'incomplete' (…_gives_up), while <= 256 bytes of garbage give 'incomplete' by design (Props/C14.lean).",
+      "Clause 3 is read with the buffer-length premise (>= 257 bytes): short garbage yields 'incomplete' by design and a unit test of the crate asserts it. RTU-request offsets whose function-code byte is 0x0F/0x10 are open finding D4.")
